@@ -15,7 +15,7 @@ func init() {
 		ID: "C17",
 		Explanation: "Decides structural clauses of C17 on the backup task (the function server.New starts with `go`): (R-C17-1) every cycle of its control-flow graph passes a blocking select that receives from Done() of the task's own context and whose Done branch leads to return without re-entering the loop (quiescent and cancellable); " +
 			"(R-C17-2) every other channel of that select is time.After(d) with constant d >= 1 minute, so any two uploads are separated by such a wait; (R-C17-3) the upload is edge-dominated by `g != last` with g a db.WriteGen() result read in the same iteration and last the loop-carried variable, whose only sources are the constant 0 and g on the nil-error edge of the upload; WriteGen is never 0 for an open database; " +
-			"(R-C17-4) that generation read dominates the upload; (R-C17-5) the uploaded body is bytes.NewReader of the unmodified os.ReadFile(db.Path()) result and read/upload errors are returned; (R-C17-7) the task is started by exactly one go statement, under BackupBucket != \"\", with New's context.  The consistency of what is read rests on C04 (file only replaced by rename).",
+			"(R-C17-4) that generation read dominates the upload; (R-C17-5) the uploaded body is bytes.NewReader of the unmodified os.ReadFile(db.Path()) result and read/upload errors are returned; (R-C17-7) the task is started by exactly one go statement, under BackupBucket != \"\", with New's context.  The consistency of what is read rests on C04 (file only replaced by rename). (R-C17-8) the write generation moves only with a write that reached the file (C04's R-C04-4).",
 		NotDecided:  "S3 behaviour and wall-clock spacing; that a snapshot opens with the key (C04/C05).",
 		Trusted:     append([]string{"time.After(d) fires no earlier than d", "os.ReadFile returns the bytes of one file version when the file is only replaced by rename"}, commonTrusted...),
 		Assumptions: []string{},
@@ -447,6 +447,8 @@ func runC17(c *eng.Ctx, tier string) {
 		}
 	}
 	// WriteGen never 0: kv.gen is 1 in the open literal, and the creating save bumps it
+	// the generation moves only with a write that reached the file (C04's rule)
+	includeOnly(c, "R-C17-8", func(sc *eng.Ctx) { runC04(sc, "quick") }, "R-C04-4")
 	c17GenNonZero(c)
 
 	// R-C17-5 byte-exact upload
